@@ -22,7 +22,7 @@ RULE = (
     'one more round of all control calls, a failing late callback and further stepping on the terminated process.  '
     'Non-trivial = a request landed while live and in flight, or after termination; distinct = distinct event-log digest.'
 )
-BUDGET = {'quick': (60000, 55), 'thorough': (4_000_000, 600)}
+BUDGET = {'quick': (150000, 55), 'thorough': (4_000_000, 600)}
 COMPONENTS = common.COMPONENTS
 ASSUMPTIONS = ['FIFO ready queue', 'lifecycle hooks do not raise (C03 covers hooks that do)']
 EXPECTED_COUNTERS = ['kind:workchain', 'probe:late_failing_callback_after_terminal', 'probe:fail_on_terminated', 'probe:kill_on_terminated',
